@@ -19,7 +19,7 @@ THEOREMS = [# (1) framework: any document type, any operations, any equivalence
             'xeqv_is_equivalence', 'xeqv_observable', 'lift_sound', 'lift_undoable', 'undo_operations_sound_x', 'x_api_sound', 'x_undo_redo_history',
             'x_api_sound_everywhere',
             'setfont_before_fix_refuted', 'addfont_before_fix_refuted', 'fontslot_before_fix_refuted', 'resize_sauce_size_before_fix_refuted',
-            'rowcol_exact_roundtrip', 'rowcol_not_invariant']
+            'rowcol_operations_sound', 'rowcol_cells', 'rowcol_before_fix_refuted']
 SWEEP_LEMMAS = []
 TRUSTED = ['Coq 8.16.1 kernel + vm_compute (model evaluation); no axioms (Print Assumptions: closed)',
            'translator/gen_undo.py + vlib/rustsrc.py: guard-expression translator and the statement templates that pin Layer::set_char/'
@@ -35,8 +35,6 @@ TRUSTED = ['Coq 8.16.1 kernel + vm_compute (model evaluation); no axioms (Print 
 UNMODELLED = ['per-operation soundness is NOT proved (stage S only: the oracle runs them on the real code) for: scroll_area_up/down over a PART of the layer '
               'width (raw row splicing across rows, known finding C08-scroll-area-raw-lines; the model answers "outside" = Err 99 and the '
               'case is skipped in stage C), add_floating_layer, update_layer_properties, paste_sixel, add_font / set_font with an arbitrary BitFont',
-              'insert/delete row and column are MODELLED and tied by stage C, but proved only as an exact round trip (rowcol_exact_roundtrip); they are not '
-              'invariant under the document equivalence (rowcol_not_invariant, known finding C08-rowcol-raw-lines) and therefore not part of x_undo_redo_history',
               'outside the model (Err 99, skipped by stage C, run by stage S): replace_font_usage / change_font_slot from font page 0 to another page '
               '(changes Layer::default_font_page, which the layer model fixes to 0); merge_layer_down of a cell with a TRANSPARENT_COLOR colour over a '
               'visible cell (Buffer::make_solid_color)',
@@ -72,25 +70,13 @@ CAT = {1: 'buffer-size', 2: 'modes', 3: 'palette', 4: 'fonts', 5: 'sauce', 6: 'l
 # `facts` = the bit set harness/src/c08.rs::facts computes while re-running the minimised history on the real code (the state-dependent
 # preconditions: the same predicates as the Coq known classes known_sauce_size / known_addfont / known_setfont / known_fontslot, and the
 # geometry of the scrolled area); the order-dependent precondition of the row/column class is read off the operation names.
-ROWCOL = {'insrow', 'delrow', 'inscol', 'delcol'}
 SCROLL = {'scrup', 'scrdown'}      # scroll_area_left / right are proved sound (Proofs/ScrollProofs.v): a failure there is a violation
-# records that store whole `lines` vectors / layer lists and put the STORED vectors back on redo (a stale shape)
-SNAPSHOT = {'palmode', 'ice', 'replfont', 'fontslot', 'remfont', 'rotate'}
 F_SCROLL_ONE_ROW, F_SCROLL_ROWS = 1, 2
-
-def rowcol_then_snapshot(names):
-    """a row/column operation followed (later in the history) by an operation whose record re-imposes stored `lines` vectors"""
-    seen = False
-    for n in names:
-        if n in ROWCOL: seen = True
-        elif seen and n in SNAPSHOT: return True
-    return False
 
 def classify(code, cat, names, doc, facts=0):
     """signature of a failing minimised history; a known signature only when the precondition of that defect holds on it"""
     kind = CODE.get(code, 'code%d' % code)
     ns = set(names)
-    if cat in ('cell', 'layer-size', '') and rowcol_then_snapshot(names): return 'C08-rowcol-raw-lines'
     if cat in ('cell', '') and ns & SCROLL and facts & F_SCROLL_ONE_ROW: return 'C08-scroll-area-raw-lines'
     return 'C08-%s%s:%s' % (kind, ('/' + cat) if cat else '', '+'.join(sorted(ns)))
 
@@ -413,7 +399,7 @@ LEVEL_TEXT = ('Machine-checked proof (Coq, closed under the global context), PAR
               'wrappers reading the selection mask, flip x/y with the maps of the font table, rotate_layer, scroll_area_up/down over the whole layer '
               'width, scroll_area_left/right. Where the code is wrong the theorem is stated outside a known class with a Coq witness inside it: set font in Unlimited/FixedSize mode '
               'when the caret page differs from slot 0, add font / change font slot onto an occupied slot, resize/crop with a SAUCE record of another size. '
-              'Insert/delete row and column are modelled and proved as an exact round trip only (they are not invariant under the equivalence: witness). '
+              'Insert/delete row and column (repaired: their undo no longer depends on the stored shape of `lines`) are part of x_undo_redo_history. '
               '(4) NOT proved (oracle on the real code only): scroll_area_up/down over part of the layer width, add_floating_layer, '
               'layer properties, sixels; five + one known defect classes are listed as known findings.')
 LEVEL_NOTE = ('Trusted: Coq kernel + vm_compute; translator/gen_undo.py (guard expressions of Layer::set_char/restore_char/can_set_char/get_char and '
